@@ -88,8 +88,13 @@ def check(run, replay):
     try:
         keyfields.generate(vlib.REPO, os.path.join(vlib.COQ, "theories", "Cache", "Gen_KeyFields.v"))
     except keyfields.TranslateError as e:
+        # the key model is not the code: no proof / loader correspondence this run, the crash search still runs
         run.violation("translate:keyfields", "translator cannot read the key composition: %s" % e,
                       {"broken": "translator", "detail": str(e)}, found_input=False)
+        run.extra["model_tie"] = "off"
+        run.obligations = vlib.theorems_of(os.path.join(vlib.COQ, "theories", "Properties_%s.v" % PID))
+        run.checker_cmd = "not run: the translator failed"
+        crash_search(run, quick, rng)
         return
     ok = run.prove(extra_targets=["theories/Cache/Run.vo"])
     if not ok:
@@ -171,6 +176,10 @@ def check(run, replay):
             run.violation("tie:loader:%s:%d" % (af, n), "model accept=%s, tinyxml2+skipAnalysis=%s on the first %d bytes of %s" % (vlib.show(m), vlib.show(i), n, af),
                           {"broken": "correspondence", "file": af, "cut": n, "model": vlib.show(m), "impl": vlib.show(i)}, found_input=False)
 
+    crash_search(run, quick, rng)
+
+
+def crash_search(run, quick, rng):
     # ---------------- X2: kill the real binary at every cache write, then a complete run vs fresh
     sc = C.Scratch("c20x2")
     try:
